@@ -112,23 +112,37 @@ def jRowOf (sheet : String) (row : Nat) : JTx → Except String (Option JRow)
     let r : JRow := ⟨sheet, row, m, d, "fee", none, none, some f, some y, 0⟩
     .ok (some r)
 
-/-- `sortedYears = true` is the repaired behaviour (F5) -/
-def jpAsset (sortedYears : Bool) (c : Computed) : Except String (List JSheet) := do
-  let all : List JTx := c.ins.map JTx.i ++ c.outs.map JTx.o ++ c.intras.map JTx.x
-  let years := all.foldl (fun (ys : List Int) t => if ys.contains t.ts.year then ys else ys ++ [t.ts.year]) []
-  let years := if sortedYears then sortBy (fun a b => decide (a < b)) years else years
-  let (sheets, _, _) ← years.foldlM (fun (acc : List JSheet × Nat × Int) y => do
-    let (sheets, prevOff, prevYear) := acc
-    let name := s!"{c.asset}_{y}"
-    let txs := sortByTs (·.ts.us) (all.filter (fun t => t.ts.year == y))
-    let (rows, _) ← txs.foldlM (fun (a : List JRow × Nat) t => do
-      match ← jRowOf name (a.2 + 1) t with
-      | some r => pure (a.1 ++ [r], a.2 + 1)
-      | none => pure a) ([], 21)
+/-- first-seen de-duplication -/
+def dedup (l : List Int) : List Int := l.foldl (fun ys y => if ys.contains y then ys else ys ++ [y]) []
+
+/-- the years the generator iterates over; `sortedYears = true` is the repaired behaviour (F5) -/
+def jpYears (sortedYears : Bool) (all : List JTx) : List Int :=
+  let ys := dedup (all.map (·.ts.year))
+  if sortedYears then sortBy (fun a b => decide (a < b)) ys else ys
+
+/-- rows of one asset-year sheet: one per transaction in time order, fee-less transfers skipped, consecutive from row 22 -/
+def jpRows (name : String) : List JTx → Nat → Except String (List JRow)
+  | [], _ => pure []
+  | t :: ts, k => do
+    match ← jRowOf name (k + 1) t with
+    | some r => do let rest ← jpRows name ts (k + 1); pure (r :: rest)
+    | none => jpRows name ts k
+
+def jpSheetName (asset : String) (y : Int) : String := s!"{asset}_{y}"
+
+def jpSheets (sortedYears : Bool) (asset : String) (all : List JTx) : List Int → Nat → Int → Except String (List JSheet)
+  | [], _, _ => pure []
+  | y :: ys, prevOff, prevYear => do
+    let name := jpSheetName asset y
+    let rows ← jpRows name (sortByTs (·.ts.us) (all.filter (fun t => t.ts.year == y))) 21
     let rowIndex := 21 + rows.length
     let prevRef := if prevOff = 0 then none else
-      some (if sortedYears then s!"{c.asset}_{prevYear}" else s!"{c.asset}_{y - 1}", prevOff)
-    pure (sheets ++ [{ name, rows, prevRef, closeRow := rowIndex + 9 }], rowIndex + 9, y)) ([], 0, 0)
-  pure sheets
+      some (if sortedYears then jpSheetName asset prevYear else jpSheetName asset (y - 1), prevOff)
+    let rest ← jpSheets sortedYears asset all ys (rowIndex + 9) y
+    pure ({ name, rows, prevRef, closeRow := rowIndex + 9 } :: rest)
+
+def jpAsset (sortedYears : Bool) (c : Computed) : Except String (List JSheet) :=
+  let all : List JTx := c.ins.map JTx.i ++ c.outs.map JTx.o ++ c.intras.map JTx.x
+  jpSheets sortedYears c.asset all (jpYears sortedYears all) 0 0
 
 end Rp2
